@@ -22,6 +22,7 @@ EXPLANATION = (
     "over get_data/set_data and neither SdoVariable nor PdoVariable overrides any of them; R6 structural assumptions shared by all properties: no class-level mutable object is mutated in place by instances, no method re-runs the constructor, logging statements cannot raise (typed eager formatting, divisions), no mutable default argument is kept or mutated, no new truth-value test of a None-able number, a look-up memory the pinned tree does not have is keyed by all its inputs (arithmetic keys folded over a grid of addresses) and, on the serving side, emptied somewhere."
     ' R2 accepts a handler that only rejects (raise / nothing) where it demanded pass.'
     ' R3 decides the rounding of encode_phys by evaluation for ten quotients.'
+    ' R2 also: encode_bits keeps the result in the range of a signed type (specialised for boundary probes: sign bit set and cleared for INTEGER8/16/32, unsigned types unchanged).'
 )
 ASSUMPTIONS = [
     "not decided: floating-point rounding for all factors; values that do not fit the addressed bit field",
